@@ -1,6 +1,9 @@
 //! C18 correspondence: real `Inventory::{resolve, partial_resolve, to_string, parse}` and `Checksum::from_str`
 //! (libherokubuildpack::inventory) with test version types: `Tv(u32)` (total order) and `Pv(u8, u8)` under the product
 //! (partial) order; metadata `Option<u8>`; digests `D2` ("d2", 2 bytes), `S32` ("sha256", 32 bytes) and `()` (anything).
+//! Checksum candidates (kind `KP`) and OS / architecture names (kind `N`) go through every entry path a string has: `FromStr`,
+//! `Deserialize` on its own (serde's `&str` deserializer, JSON, a TOML record, a `toml::Value`) and inside an inventory document
+//! (`Inventory::from_str`) in each TOML string notation — see `entry_paths`. Kind `K` (FromStr only) is kept for old replays.
 use cnbv::*;
 use libherokubuildpack::inventory::Inventory;
 use libherokubuildpack::inventory::artifact::{Arch, Artifact, Os};
@@ -115,6 +118,20 @@ fn roundtrip<V: Serialize + serde::de::DeserializeOwned + Eq>(inv: &Inventory<V,
     }
 }
 
+/// the result of `Checksum::from_str`: name, digest bytes and the `Serialize` rendering, or the error kind
+fn show_checksum<D: Digest>(r: Result<Checksum<D>, ChecksumParseError>) -> String {
+    match r {
+        Ok(c) => {
+            let rendered = serde_json::to_value(&c).ok().and_then(|v| v.as_str().map(str::to_string)).unwrap_or_else(|| "?".into());
+            format!("ok:{}:{}:{}", hex(c.name.as_bytes()), hex(&c.value), hex(rendered.as_bytes()))
+        }
+        Err(ChecksumParseError::MissingPrefix) => "err:missing-prefix".into(),
+        Err(ChecksumParseError::IncompatiblePrefix(_)) => "err:incompatible-prefix".into(),
+        Err(ChecksumParseError::InvalidValue(_)) => "err:invalid-value".into(),
+        Err(ChecksumParseError::InvalidChecksumLength(_)) => "err:invalid-length".into(),
+    }
+}
+
 fn run_case(f: &[String]) -> String {
     match f[0].as_str() {
         "T" => {
@@ -150,28 +167,191 @@ fn run_case(f: &[String]) -> String {
         "K" => {
             assert!(f[1] == "-" && f[2] == "-");
             let s = String::from_utf8(unhex(&f[4]).unwrap()).unwrap();
-            fn show<D: Digest>(r: Result<Checksum<D>, ChecksumParseError>) -> String {
-                match r {
-                    Ok(c) => {
-                        let rendered = serde_json::to_value(&c).ok().and_then(|v| v.as_str().map(str::to_string)).unwrap_or_else(|| "?".into());
-                        format!("ok:{}:{}:{}", hex(c.name.as_bytes()), hex(&c.value), hex(rendered.as_bytes()))
-                    }
-                    Err(ChecksumParseError::MissingPrefix) => "err:missing-prefix".into(),
-                    Err(ChecksumParseError::IncompatiblePrefix(_)) => "err:incompatible-prefix".into(),
-                    Err(ChecksumParseError::InvalidValue(_)) => "err:invalid-value".into(),
-                    Err(ChecksumParseError::InvalidChecksumLength(_)) => "err:invalid-length".into(),
-                }
-            }
             match f[3].as_str() {
-                "d2" => show(s.parse::<Checksum<D2>>()),
-                "s32" => show(s.parse::<Checksum<S32>>()),
-                "s64" => show(s.parse::<Checksum<S64>>()),
-                "any" => show(s.parse::<Checksum<()>>()),
+                "d2" => show_checksum(s.parse::<Checksum<D2>>()),
+                "s32" => show_checksum(s.parse::<Checksum<S32>>()),
+                "s64" => show_checksum(s.parse::<Checksum<S64>>()),
+                "any" => show_checksum(s.parse::<Checksum<()>>()),
                 _ => panic!("digest"),
+            }
+        }
+        // a checksum candidate through every entry path a string has into `Checksum<D>` (see `entry_paths`)
+        "KP" => {
+            assert!(f[1] == "-" && f[2] == "-" && f.len() == 6);
+            let s = String::from_utf8(unhex(&f[4]).unwrap()).unwrap();
+            let forms = opt_forms(&f[5]);
+            match f[3].as_str() {
+                "d2" => entry_paths::<D2>(&s, &forms),
+                "s32" => entry_paths::<S32>(&s, &forms),
+                "s64" => entry_paths::<S64>(&s, &forms),
+                "any" => entry_paths::<()>(&s, &forms),
+                _ => panic!("digest"),
+            }
+        }
+        // an OS / architecture name through `FromStr` and through every deserialisation path
+        "N" => {
+            assert!(f[1] == "-" && f[2] == "-" && f.len() == 6);
+            let s = String::from_utf8(unhex(&f[4]).unwrap()).unwrap();
+            let forms = opt_forms(&f[5]);
+            match f[3].as_str() {
+                "os" => name_paths::<Os>(&s, "os", &forms),
+                "arch" => name_paths::<Arch>(&s, "arch", &forms),
+                _ => panic!("name kind"),
             }
         }
         _ => panic!("kind"),
     }
+}
+
+// ------------------------------------------------------------------------------------------------ entry paths of a string-typed field
+// A checksum (an OS / architecture name) reaches the library as a `&str` handed to `FromStr`, or as a string inside some serde
+// data format: on its own, as the field of a record, or as the `checksum` (`os`, `arch`) value of an artifact of an inventory TOML
+// document, in any of TOML's four string notations. Every path must give the same answer for the same decoded string.
+
+/// TOML basic string `"…"` denoting exactly `s`
+fn toml_basic(s: &str) -> String {
+    let mut o = String::from("\"");
+    for c in s.chars() {
+        match c {
+            '"' => o.push_str("\\\""), '\\' => o.push_str("\\\\"),
+            c if (c as u32) < 0x20 || c as u32 == 0x7f => o.push_str(&format!("\\u{:04X}", c as u32)),
+            c => o.push(c),
+        }
+    }
+    o.push('"');
+    o
+}
+
+/// TOML multi-line basic string denoting exactly `s`: line feeds stand for themselves (a carriage return is escaped: the `toml` crate
+/// reads a raw CR LF as LF); the line break that TOML drops after the opening delimiter is always written, so that a string beginning
+/// with a line break keeps it
+fn toml_ml_basic(s: &str) -> String {
+    let mut o = String::from("\"\"\"\n");
+    for c in s.chars() {
+        match c {
+            '"' => o.push_str("\\\""), '\\' => o.push_str("\\\\"),
+            '\n' => o.push('\n'),
+            c if (c as u32) < 0x20 || c as u32 == 0x7f => o.push_str(&format!("\\u{:04X}", c as u32)),
+            c => o.push(c),
+        }
+    }
+    o.push_str("\"\"\"");
+    o
+}
+
+fn literal_char(c: char) -> bool { c == '\t' || ((c as u32) >= 0x20 && c as u32 != 0x7f && c != '\'') }
+
+/// TOML literal string `'…'`, when the text allows one (no apostrophe, no control character but tab)
+fn toml_literal(s: &str) -> Option<String> { if s.chars().all(literal_char) { Some(format!("'{s}'")) } else { None } }
+
+/// TOML multi-line literal string, when the text allows one (no run of three apostrophes, none at the end, no control character but
+/// tab and LF)
+fn toml_ml_literal(s: &str) -> Option<String> {
+    let ok = s.chars().all(|c| literal_char(c) || c == '\'' || c == '\n');
+    if ok && !s.contains("\'\'\'") && !s.ends_with('\'') { Some(format!("\'\'\'\n{s}\'\'\'")) } else { None }
+}
+
+/// the optional notations of a case (`-`, `l`, `ml`, `l+ml`): literal and multi-line literal; basic and multi-line basic always apply
+fn opt_forms(f: &str) -> Vec<&str> { let v = split_list(f, "+"); assert!(v.iter().all(|x| *x == "l" || *x == "ml")); v }
+
+/// which optional notations can denote `s` exactly — by TOML's grammar and confirmed with the `toml` crate's generic value type
+fn forms_for(s: &str) -> String {
+    let mut v: Vec<String> = vec![];
+    for (tag, t) in [("l", toml_literal(s)), ("ml", toml_ml_literal(s))] {
+        if let Some(t) = t { if decoded(&format!("c = {t}\n"), &["c"]).as_deref() == Some(s) { v.push(tag.into()); } }
+    }
+    if v.is_empty() { "-".into() } else { v.join("+") }
+}
+
+/// the string a document holds at a key path, read with the `toml` crate's generic value type (not the library)
+fn decoded(doc: &str, path: &[&str]) -> Option<String> {
+    let mut v: toml::Value = doc.parse().ok()?;
+    for k in path { v = match k.parse::<usize>() { Ok(i) => v.get(i)?.clone(), Err(_) => v.get(*k)?.clone() }; }
+    v.as_str().map(str::to_string)
+}
+
+/// an inventory document of one artifact; `field` = `os`, `arch` or `checksum` is given by the TOML text `value`
+fn inventory_doc(field: &str, value: &str, header: bool) -> String {
+    let mut d = String::new();
+    if header { d.push_str("[[artifacts]]\n"); }
+    d.push_str("version = 1\n");
+    for (k, v) in [("os", "\"linux\""), ("arch", "\"amd64\""), ("url", "\"u\""), ("checksum", "\"any:00\"")] {
+        d.push_str(&format!("{k} = {}\n", if k == field { value } else { v }));
+    }
+    d
+}
+
+fn inventory_json(field: &str, s: &str) -> serde_json::Value {
+    let mut a = serde_json::json!({"version": 1, "os": "linux", "arch": "amd64", "url": "u", "checksum": "any:00"});
+    a[field] = serde_json::Value::String(s.to_string());
+    serde_json::json!({"artifacts": [a]})
+}
+
+/// the TOML notations of `s` this case uses, each checked to decode to `s` exactly: (path name, inventory document)
+fn inventory_docs(field: &str, s: &str, forms: &[&str]) -> Vec<(&'static str, String)> {
+    let mut docs = vec![("ib", toml_basic(s)), ("imb", toml_ml_basic(s))];
+    if forms.contains(&"l") { docs.push(("il", toml_literal(s).expect("literal notation does not apply"))); }
+    if forms.contains(&"ml") { docs.push(("iml", toml_ml_literal(s).expect("multi-line literal notation does not apply"))); }
+    docs.into_iter().map(|(p, t)| {
+        let doc = inventory_doc(field, &t, true);
+        assert!(decoded(&doc, &["artifacts", "0", field]).as_deref() == Some(s), "the document does not hold the candidate string");
+        (p, doc)
+    }).collect()
+}
+
+#[derive(Deserialize)]
+#[serde(bound = "T: serde::de::DeserializeOwned")]
+struct Wrap<T> { c: T }
+
+fn show_short<D>(c: &Checksum<D>) -> String { format!("ok:{}:{}", hex(c.name.as_bytes()), hex(&c.value)) }
+fn one_artifact<D, T>(inv: &Inventory<Tv, D, Md>, f: impl Fn(&Artifact<Tv, D, Md>) -> T) -> Result<T, String> {
+    if inv.artifacts.len() == 1 { Ok(f(&inv.artifacts[0])) } else { Err(format!("ok?artifacts={}", inv.artifacts.len())) }
+}
+
+/// `fs` = `str::parse::<Checksum<D>>()` (observation as in family K); `ds` = `Deserialize` from serde's own `&str` deserializer;
+/// `dj` = `serde_json::from_str` of the JSON string; `dt` = `toml::from_str` of a one-field record; `dv` = `Deserialize` from a
+/// `toml::Value`; `ib`, `imb`, `il`, `iml` = `Inventory::from_str` of a one-artifact document with the checksum as basic, multi-line
+/// basic, literal, multi-line literal string; `ij` = the inventory deserialised from a JSON value; `at` = one `Artifact` with
+/// `toml::from_str`.
+fn entry_paths<D: Digest>(s: &str, forms: &[&str]) -> String {
+    use serde::de::IntoDeserializer;
+    let sh = |r: Result<Checksum<D>, ()>| match r { Ok(c) => show_short(&c), Err(()) => "err".to_string() };
+    let mut out = vec![format!("fs={}", show_checksum(s.parse::<Checksum<D>>()))];
+    let de: serde::de::value::StrDeserializer<serde::de::value::Error> = s.into_deserializer();
+    out.push(format!("ds={}", sh(Checksum::<D>::deserialize(de).map_err(|_| ()))));
+    out.push(format!("dj={}", sh(serde_json::from_str::<Checksum<D>>(&serde_json::to_string(s).unwrap()).map_err(|_| ()))));
+    out.push(format!("dt={}", sh(toml::from_str::<Wrap<Checksum<D>>>(&format!("c = {}\n", toml_basic(s))).map(|w| w.c).map_err(|_| ()))));
+    out.push(format!("dv={}", sh(toml::Value::String(s.to_string()).try_into::<Checksum<D>>().map_err(|_| ()))));
+    let inv = |r: Result<Inventory<Tv, D, Md>, ()>| match r { Ok(i) => one_artifact(&i, |a| show_short(&a.checksum)).unwrap_or_else(|e| e), Err(()) => "err".to_string() };
+    let docs = inventory_docs("checksum", s, forms);
+    for (p, doc) in docs.iter().filter(|(p, _)| *p == "ib" || *p == "imb") { out.push(format!("{p}={}", inv(doc.parse::<Inventory<Tv, D, Md>>().map_err(|_| ())))); }
+    out.push(format!("ij={}", inv(serde_json::from_value::<Inventory<Tv, D, Md>>(inventory_json("checksum", s)).map_err(|_| ()))));
+    out.push(format!("at={}", match toml::from_str::<Artifact<Tv, D, Md>>(&inventory_doc("checksum", &toml_basic(s), false)) { Ok(a) => show_short(&a.checksum), Err(_) => "err".into() }));
+    for (p, doc) in docs.iter().filter(|(p, _)| *p == "il" || *p == "iml") { out.push(format!("{p}={}", inv(doc.parse::<Inventory<Tv, D, Md>>().map_err(|_| ())))); }
+    out.join(";")
+}
+
+trait NameField: std::str::FromStr + serde::de::DeserializeOwned + std::fmt::Display { fn of(a: &Artifact<Tv, (), Md>) -> Self; }
+impl NameField for Os { fn of(a: &Artifact<Tv, (), Md>) -> Self { a.os } }
+impl NameField for Arch { fn of(a: &Artifact<Tv, (), Md>) -> Self { a.arch } }
+
+/// the same paths for an OS / architecture name; an accepted name is shown by its `Display` rendering
+fn name_paths<T: NameField>(s: &str, field: &str, forms: &[&str]) -> String {
+    use serde::de::IntoDeserializer;
+    let sh = |r: Result<T, ()>| match r { Ok(v) => format!("ok:{}", hex(v.to_string().as_bytes())), Err(()) => "err".to_string() };
+    let mut out = vec![format!("fs={}", sh(s.parse::<T>().map_err(|_| ())))];
+    let de: serde::de::value::StrDeserializer<serde::de::value::Error> = s.into_deserializer();
+    out.push(format!("ds={}", sh(T::deserialize(de).map_err(|_| ()))));
+    out.push(format!("dj={}", sh(serde_json::from_str::<T>(&serde_json::to_string(s).unwrap()).map_err(|_| ()))));
+    out.push(format!("dt={}", sh(toml::from_str::<Wrap<T>>(&format!("c = {}\n", toml_basic(s))).map(|w| w.c).map_err(|_| ()))));
+    out.push(format!("dv={}", sh(toml::Value::String(s.to_string()).try_into::<T>().map_err(|_| ()))));
+    let inv = |r: Result<Inventory<Tv, (), Md>, ()>| match r { Ok(i) => one_artifact(&i, |a| sh(Ok(T::of(a)))).unwrap_or_else(|e| e), Err(()) => "err".to_string() };
+    let docs = inventory_docs(field, s, forms);
+    for (p, doc) in docs.iter().filter(|(p, _)| *p == "ib" || *p == "imb") { out.push(format!("{p}={}", inv(doc.parse::<Inventory<Tv, (), Md>>().map_err(|_| ())))); }
+    out.push(format!("ij={}", inv(serde_json::from_value::<Inventory<Tv, (), Md>>(inventory_json(field, s)).map_err(|_| ()))));
+    out.push(format!("at={}", match toml::from_str::<Artifact<Tv, (), Md>>(&inventory_doc(field, &toml_basic(s), false)) { Ok(a) => sh(Ok(T::of(&a))), Err(_) => "err".into() }));
+    for (p, doc) in docs.iter().filter(|(p, _)| *p == "il" || *p == "iml") { out.push(format!("{p}={}", inv(doc.parse::<Inventory<Tv, (), Md>>().map_err(|_| ())))); }
+    out.join(";")
 }
 
 // ------------------------------------------------------------------------------------------------ generators
@@ -205,10 +385,22 @@ fn subsets(vs: &[&str]) -> Vec<String> {
     (0u32..(1 << n)).map(|m| { let sel: Vec<&str> = (0..n).filter(|i| m >> i & 1 == 1).map(|i| vs[i]).collect(); if sel.is_empty() { "~".into() } else if sel.len() == n { "*".into() } else { sel.join("+") } }).collect()
 }
 
+/// a checksum candidate, judged through every entry path (kind `KP`; the optional TOML notations are those the text allows)
 fn k_case(dg: &str, s: &[u8], tag: &str) -> Case {
-    Case { fields: vec!["K".into(), "-".into(), "-".into(), dg.into(), hex(s)],
-           tags: vec![("kind".into(), tag.into()), ("digest".into(), dg.into()), ("colons".into(), s.iter().filter(|b| **b == b':').count().min(3).to_string()), ("len".into(), s.len().min(70).to_string())],
+    let forms = forms_for(std::str::from_utf8(s).expect("candidate strings are UTF-8"));
+    let line_end = if s.ends_with(b"\n") || s.ends_with(b"\r") { "end" } else if s.starts_with(b"\n") || s.starts_with(b"\r") { "start" } else if s.contains(&b'\n') || s.contains(&b'\r') { "inside" } else { "none" };
+    Case { fields: vec!["KP".into(), "-".into(), "-".into(), dg.into(), hex(s), forms.clone()],
+           tags: vec![("kind".into(), tag.into()), ("digest".into(), dg.into()), ("colons".into(), s.iter().filter(|b| **b == b':').count().min(3).to_string()), ("len".into(), s.len().min(70).to_string()),
+                      ("optional-notations".into(), forms), ("line-break".into(), line_end.into())],
            nontrivial: s.contains(&b':') }
+}
+
+/// an OS / architecture name candidate through every entry path (kind `N`)
+fn n_case(field: &str, s: &str, tag: &str) -> Case {
+    let forms = forms_for(s);
+    Case { fields: vec!["N".into(), "-".into(), "-".into(), field.into(), hex(s.as_bytes()), forms.clone()],
+           tags: vec![("kind".into(), tag.into()), ("name-field".into(), field.into()), ("optional-notations".into(), forms)],
+           nontrivial: !s.is_empty() }
 }
 
 fn generate(tier: &str, seed: u64, emit: &mut dyn FnMut(Case)) {
@@ -556,6 +748,23 @@ fn generate_directed(thorough: bool, seed: u64, emit: &mut dyn FnMut(Case)) {
                 for bad in ["g", "+", " ", "\n"] { let mut b = body.clone(); if bad_at < b.len() { b.replace_range(bad_at..bad_at + 1, bad); emit(k_case(dg, format!("{name}:{b}").as_bytes(), "K-long")); } }
             }
         }
+    }
+    // ---- N: OS / architecture names through FromStr and every deserialisation path: the names, the FromStr aliases, case variants,
+    // near misses, each decorated like the checksums; every string is tried as an OS and as an architecture name.
+    // The bare aliases (osx, x86_64, aarch64) are accepted by FromStr only — the paths disagree on the unchanged library; they are
+    // generated only with VERIF_C18_ALIASES=1 until that is decided.
+    let aliases = ["osx", "x86_64", "aarch64"];
+    let with_aliases = std::env::var("VERIF_C18_ALIASES").is_ok_and(|v| v == "1");
+    let names = ["linux", "darwin", "amd64", "arm64", "osx", "x86_64", "aarch64"];
+    let mut cands: Vec<String> = names.iter().map(|s| s.to_string()).collect();
+    cands.extend(["", " ", "Linux", "LINUX", "Darwin", "DARWIN", "OSX", "Osx", "macos", "windows", "freebsd", "linu", "linuxx", "linux-gnu", "Amd64", "AMD64", "Arm64", "ARM64", "amd", "amd_64", "amd-64", "amd 64", "arm", "arm64e", "armv8", "x86-64", "x86_32", "X86_64", "x64", "i386", "Aarch64", "AARCH64", "aarch32", "0", "1", "true", "linux,darwin", "linux:amd64", "linux/amd64", "ｌinux", "lınux", "ﬂinux"].iter().map(|s| s.to_string()));
+    for nm in names {
+        for dec in decor { for s in [format!("{nm}{dec}"), format!("{dec}{nm}"), format!("{dec}{nm}{dec}"), format!("{nm}{dec}{dec}"), { let h = nm.len() / 2; format!("{}{dec}{}", &nm[..h], &nm[h..]) }] { cands.push(s); } }
+        cands.push(format!("{nm}{nm}"));
+    }
+    for c in &cands {
+        if aliases.contains(&c.as_str()) && !with_aliases { continue; }
+        for field in ["os", "arch"] { emit(n_case(field, c, if aliases.contains(&c.as_str()) { "N-alias" } else { "N" })); }
     }
     for len in [255usize, 256, 257, 1000, 4096] {
         emit(k_case("any", format!("{}:00ff", "n".repeat(len)).as_bytes(), "K-long"));
